@@ -977,6 +977,42 @@ fn run_ti_case(c: &TiCase, drv: &mut Option<Driver>, sum: &mut Summary) {
     sum.case(&canon, !c.entries.is_empty(), || json!({"kind": "timeidx", "n": c.entries.len(), "mutated": mutated, "read": &imp[..imp.len().min(60)]}));
 }
 
+/// large tracks (around and above read_track's pre-allocation cap): oracle only — 1 MB of hex per request is not worth
+/// the driver's time and `C30_timeidx_roundtrip` is proved for every length.  read(append(es)) == sorted(es).
+fn run_ti_large(n: usize, seed: u64, sum: &mut Summary) {
+    let case = || json!({"kind": "timeidx_large", "n": n, "seed": seed});
+    let mut rng = Rng::new(seed);
+    let entries: Vec<E> = (0..n).map(|k| (rng.i64(-1000, 1000) + (k as i64 % 7), if k % 5 == 0 { rng.below(3) } else { rng.u64() })).collect();
+    let mut es: Vec<TimeIndexEntry> = entries.iter().map(|(t, i)| TimeIndexEntry::new(*t, *i)).collect();
+    let mut cur = Cursor::new(vec![0x4Du8; 5]);
+    cur.seek(SeekFrom::End(0)).unwrap();
+    let (off, len, cks) = match append_track(&mut cur, &mut es) {
+        Ok(x) => x,
+        Err(e) => { sum.oracle_violation("append-track-fails", &e.to_string(), case()); return; }
+    };
+    let mut want = entries.clone();
+    want.sort();
+    let stream = cur.into_inner();
+    if off != 5 || len as usize != 12 + 16 * n || stream[5..] != track_bytes(&want)[..] {
+        sum.oracle_violation("append-track-bytes-not-canonical", &format!("large track n={n} off={off} len={len}"), case());
+    }
+    let s2 = stream.clone();
+    let got = guarded(move || { let mut c = Cursor::new(s2); read_track(&mut c, off, len).map(|v| v.iter().map(|e| (e.timestamp, e.frame_id)).collect::<Vec<E>>()).map_err(|e| ti_reason(&e)) });
+    match got {
+        Ok(Ok(v)) if v == want => {
+            let back: Vec<TimeIndexEntry> = v.iter().map(|(t, i)| TimeIndexEntry::new(*t, *i)).collect();
+            if calculate_checksum(&back) != cks { sum.oracle_violation("time-index-checksum-not-hash-of-bytes", &format!("large track n={n}"), case()); }
+            sum.branch("tiread-large-ok");
+        }
+        Ok(Ok(v)) => sum.oracle_violation("time-index-roundtrip-differs",
+            &format!("read_track(append_track(es)) returned Ok with {} entries for {} written (first difference at index {:?})", v.len(), n,
+                     v.iter().zip(want.iter()).position(|(a, b)| a != b)), case()),
+        Ok(Err(e)) => sum.oracle_violation("time-index-roundtrip-differs", &format!("large track n={n} rejected: err {e}"), case()),
+        Err(p) => sum.oracle_violation("read-track-preallocates-declared-count", &format!("large track n={n}: PANIC:{p}"), case()),
+    }
+    sum.case(&format!("TL|{n}|{seed}"), true, || json!({"kind": "timeidx_large", "n": n}));
+}
+
 fn sum_known(_s: &Summary) -> Vec<&'static str> {
     KNOWN.with(|k| k.borrow().clone())
 }
@@ -1009,6 +1045,7 @@ fn replay_case(v: &Value, drv: &mut Option<Driver>, sum: &mut Summary) {
             let c = TiCase::of_json(v);
             run_ti_case(&c, drv, sum);
         }
+        "timeidx_large" => run_ti_large(v["n"].as_u64().unwrap() as usize, v["seed"].as_u64().unwrap_or(1), sum),
         k if k.starts_with("toc") => toc_part::replay(v, drv, sum),
         other => { eprintln!("unknown replay kind {other}"); std::process::exit(EXIT_ERROR); }
     }
@@ -1034,7 +1071,7 @@ fn main() {
         "hdec-ok-after-field-mutation", "hdec-ok-after-padding-mutation",
         "fdec-none-length", "fdec-none-magic", "fdec-some-clean", "fdec-some-mutated",
         "tiread-ok", "tiread-err-magic", "tiread-err-short_length", "tiread-err-count_overflow", "tiread-err-length_mismatch",
-        "tiread-err-unsorted", "tiread-err-io"]);
+        "tiread-err-unsorted", "tiread-err-io", "tiread-large-ok"]);
     toc_part::expect(&mut sum);
     if args.mode == "replay" {
         let case = load_replay(args.replay_file.as_ref().expect("replay file"));
@@ -1081,6 +1118,8 @@ fn main() {
     run_ti_case(&TiCase { count: Some(4), length: Some(12 + 64), ..ti0.clone() }, &mut drv, &mut sum);
     // the pre-allocation witness: a 12-byte image declaring 2^59 entries with the matching length
     run_ti_case(&TiCase { entries: vec![], count: Some(1 << 59), length: Some(12 + (1u64 << 63)), ..ti0.clone() }, &mut drv, &mut sum);
+    // around and above the pre-allocation cap of read_track (65 536 entries)
+    for (n, sd) in [(65_535usize, 11u64), (65_536, 12), (65_537, 13), (70_001, 14)] { run_ti_large(n, sd, &mut sum); }
     toc_part::corpus(&mut drv, &mut sum);
 
     // ---- generated
